@@ -436,26 +436,30 @@ def _imul_no_undo(E):
 
 
 def _imul_undo(E):
-    """(4) context open: exactly TWO registrations, both in the innermost context of the model, in this order:
-    partial(self._model._populate_solver, [self]) and then partial(setattr, self, "_metabolites", D) with D THE dictionary object
-    the reaction held at entry (which clause (1) proves unwritten) - so that on exit the entry stoichiometry is put back first,
-    exactly (no inverse scaling, hence also for the coefficient 0), and the solver rows are written once more afterwards"""
+    """(4) context open: exactly THREE registrations, all in the innermost context of the model, in this order:
+    partial(self._model._populate_solver, [self]), the bound method self._update_awareness, and partial(setattr, self,
+    "_metabolites", D) with D THE dictionary object the reaction held at entry (which clause (1) proves unwritten) - so that on exit
+    (last in, first out) the entry stoichiometry is put back first, exactly (no inverse scaling, hence also for the coefficient 0),
+    then every metabolite (and gene) of the restored reaction is made aware of it again (an edit made after a scaling by zero may
+    have dropped the zeroed entries together with their back references), and the solver rows are written once more at the end"""
     tr = _trace(E)
-    if not (len(tr) == 2 and all(ev[0] == "push" for ev in tr)):
+    if not (len(tr) == 3 and all(ev[0] == "push" for ev in tr)):
         return [z3.BoolVal(False)]
-    (_, c1, f1), (_, c2, f2) = tr
+    (_, c1, f1), (_, c2, f2), (_, c3, f3) = tr
     ok1 = (isinstance(f1, VFunc) and f1.kind == "partial" and isinstance(f1.a, VFunc) and f1.a.kind == "bound"
            and isinstance(f1.a.a, VObj) and f1.a.a.oid == model_of(E).oid and f1.a.b == "_populate_solver" and len(f1.b) == 1
            and not f1.c and _one_reaction(E.s1, f1.b[0]) is not None and _one_reaction(E.s1, f1.b[0]).oid == E["self"].oid)
-    ok2 = (isinstance(f2, VFunc) and f2.kind == "partial" and isinstance(f2.a, VFunc) and f2.a.kind == "builtin"
-           and f2.a.a == "setattr" and len(f2.b) == 3 and not f2.c
-           and isinstance(f2.b[0], VObj) and f2.b[0].oid == E["self"].oid
-           and isinstance(f2.b[1], VConc) and f2.b[1].py == "_metabolites"
-           and isinstance(f2.b[2], VObj) and f2.b[2].oid == stoich_obj(E, E.s0).oid)
-    if not (ok1 and ok2):
+    ok2 = (isinstance(f2, VFunc) and f2.kind == "bound" and isinstance(f2.a, VObj) and f2.a.oid == E["self"].oid
+           and f2.b == "_update_awareness")
+    ok3 = (isinstance(f3, VFunc) and f3.kind == "partial" and isinstance(f3.a, VFunc) and f3.a.kind == "builtin"
+           and f3.a.a == "setattr" and len(f3.b) == 3 and not f3.c
+           and isinstance(f3.b[0], VObj) and f3.b[0].oid == E["self"].oid
+           and isinstance(f3.b[1], VConc) and f3.b[1].py == "_metabolites"
+           and isinstance(f3.b[2], VObj) and f3.b[2].oid == stoich_obj(E, E.s0).oid)
+    if not (ok1 and ok2 and ok3):
         return [z3.BoolVal(False)]
     nc, ec = C3._ctxs(E.s0, model_of(E))
-    return [c1.t == ec[nc - 1], c2.t == ec[nc - 1]]
+    return [c1.t == ec[nc - 1], c2.t == ec[nc - 1], c3.t == ec[nc - 1]]
 
 
 def _returns_self(E):
@@ -704,8 +708,9 @@ KEYS_NEW = [KEY_MUL, KEY_ADD, KEY_SUB]
 def lemmas():
     """undo-restores: closed formula over plain arrays built from the very clauses (1), (3b), (4) of the post-condition: the call
     with ANY finite coefficient c (state 0 -> 1; clause (1): the dictionary object D held at entry is not written) followed by the
-    two registered functions in last-in-first-out order - setattr(self, "_metabolites", D) (state 1 -> 2: the attribute holds D
-    again, whose content is the entry content) and then _populate_solver([self]) (state 2 -> 3, by the ASSUMED effect on the ghost
+    three registered functions in last-in-first-out order - setattr(self, "_metabolites", D) (state 1 -> 2: the attribute holds D
+    again, whose content is the entry content), self._update_awareness() (every metabolite of the restored stoichiometry lists the
+    reaction again) and then _populate_solver([self]) (state 2 -> 3, by the ASSUMED effect on the ghost
     matrix S used in clause (3b), instantiated with the stoichiometry of state 2) - gives back the keys and every coefficient of
     state 0 EXACTLY (no arithmetic: also for c = 0, and without the rounding of x * c * (1.0 / c)), and the solver rows hold the
     coefficients of state 0 again.  The bounds are put back by the `resettable` wrapper of the bounds setter (C03 kernel:
@@ -723,9 +728,15 @@ def lemmas():
     step1 = scale_facts(d0, v0, d1, v1, c) + rows_facts(S1, ids, f, b, d0, v0, c) + [dD == d0, vD == v0]
     # state 1 -> 2: setattr puts the entry dictionary object back: the reaction's stoichiometry is that object's content
     step2 = [d2 == dD, v2 == vD]
-    # state 2 -> 3: _populate_solver([self]) writes the rows from the stoichiometry of state 2 (rows_facts with coefficient 1)
-    step3 = rows_facts(S3, ids, f, b, d2, v2, one)
+    # state 2 -> 2': self._update_awareness() (ASSUMED effect of that three-line method: every key of the stoichiometry - and every gene
+    # - lists the reaction afterwards, no other back reference changes): whatever happened to the back references in between (aw1
+    # arbitrary), every metabolite of the ENTRY stoichiometry lists the reaction again
+    aw1, aw2 = z3.Const("la_aware1", RB), z3.Const("la_aware2", RB)
+    step_aw = [FA([m], aw2[m] == z3.Or(aw1[m], d2[m]), patterns=[aw2[m]])]
+    # state 2' -> 3: _populate_solver([self]) writes the rows from the stoichiometry of state 2 (rows_facts with coefficient 1)
+    step3 = step_aw + rows_facts(S3, ids, f, b, d2, v2, one)
     goal = z3.And(FA([m], z3.And(d2[m] == d0[m], z3.Implies(d0[m], v2[m] == v0[m])), patterns=[d2[m], d0[m]]),
+                  FA([m], z3.Implies(d0[m], aw2[m]), patterns=[d0[m]]),
                   FA([m], z3.Implies(d0[m], z3.And(S3[ids[m]][f] == v0[m], S3[ids[m]][b] == -v0[m])), patterns=[d0[m]]))
     return [Obl("C02/lemma/Reaction.__imul__/undo-restores", step1 + step2 + step3, goal, "lemma")]
 
